@@ -19,14 +19,19 @@ the one that led into the violating state>}.
 import json
 import os
 import re
+import threading
 
 from .. import tlc
 from ..harness import MachineryError
 
 
+_LOCK = threading.Lock()
+
+
 def _run(ctx, module, cfg, traces, progress, name, timeout):
-    n = getattr(ctx, "_tracecheck_files", 0) + 1
-    ctx._tracecheck_files = n
+    with _LOCK:
+        n = getattr(ctx, "_tracecheck_files", 0) + 1
+        ctx._tracecheck_files = n
     path = os.path.join(ctx.workdir, "traces_%s_%d.json" % (re.sub(r"\W", "_", name), n))
     with open(path, "w") as f:
         json.dump(traces, f)
@@ -43,12 +48,18 @@ def validate(ctx, name, module, cfg, traces, timeout=1500, chunk=None, want_expe
     if not traces:
         return verdict
     if chunk and len(traces) > chunk:
-        for i in range(0, len(traces), chunk):
-            verdict.update(validate(ctx, name, module, cfg, traces[i:i + chunk], timeout,
-                                    want_expected=want_expected))
+        # independent batches: one JVM each, a few at a time
+        from concurrent.futures import ThreadPoolExecutor
+
+        parts = [traces[i:i + chunk] for i in range(0, len(traces), chunk)]
+        with ThreadPoolExecutor(max_workers=4) as pool:
+            for v in pool.map(lambda part: validate(ctx, name, module, cfg, part, timeout,
+                                                    want_expected=want_expected), parts):
+                verdict.update(v)
         return verdict
     res = _run(ctx, module, cfg, traces, False, name, timeout)
-    ctx.add_tlc(name, res)
+    with _LOCK:
+        ctx.add_tlc(name, res)
     accepted = set(r["tid"] for r in res.records if r.get("what") == "accepted")
     unknown = accepted - set(tids)
     if unknown:
